@@ -5,6 +5,7 @@ import (
 	"fmt"
 	"io"
 	"os"
+	"path"
 	"path/filepath"
 	"strings"
 	"syscall"
@@ -118,9 +119,9 @@ func cleanKeyPath(p string) bool {
 }
 
 // errUnsupportedKey is returned for keys the filesystem backends cannot store
-// without aliasing another path: see cleanKeyPath.
+// without aliasing or destroying another path: see cleanKeyPath and belowFile.
 func errUnsupportedKey(key string) error {
-	return gofakes3.ErrorMessagef(gofakes3.ErrInvalidArgument, "key %q is not supported by this backend: empty, '.' and '..' path segments cannot be stored", key)
+	return gofakes3.ErrorMessagef(gofakes3.ErrInvalidArgument, "key %q cannot be stored by this backend (empty, '.' or '..' path segment, or a parent of it is an object)", key)
 }
 
 // noSuchFile reports whether err means that no file exists at a path: either
@@ -128,4 +129,17 @@ func errUnsupportedKey(key string) error {
 // which case nothing can be below it.
 func noSuchFile(err error) bool {
 	return os.IsNotExist(err) || errors.Is(err, syscall.ENOTDIR)
+}
+
+// belowFile reports whether a parent of the slash-separated path p is a regular
+// file. Nothing can be stored below an object; a real filesystem refuses to
+// create the directory, but some afero filesystems (MemMapFs) silently replace
+// the file with a directory, which would make the object vanish.
+func belowFile(fs afero.Fs, p string) bool {
+	for dir := path.Dir(p); dir != "." && dir != "/"; dir = path.Dir(dir) {
+		if stat, err := fs.Stat(filepath.FromSlash(dir)); err == nil && !stat.IsDir() {
+			return true
+		}
+	}
+	return false
 }
